@@ -1,8 +1,9 @@
 """R-CRC-TWINS: several folding CRC kernels exist twice, as an SSE (legacy-encoded) version and as its instruction-by-instruction AVX (VEX-encoded) translation; the dispatcher
 hands out one or the other depending on the CPU, and on any given machine only one of the two is ever run.  Both have to compute the same function, and for these pairs
-that is visible in the code: the multiset of (mnemonic with the v prefix dropped, immediate operands) is identical - for three pairs over all instructions, for the gzip
-pair (whose main loop was rescheduled for three-operand instructions) over the instructions that carry an immediate: byte-shift counts, PCLMULQDQ selectors, length
-comparisons, pointer steps.  A twin that deviates is reported at the first difference.  Sibling agreement, not a proof of the CRC."""
+that is visible in the code: the multiset of (vector mnemonic with the v prefix dropped, immediate operands) is identical - for three pairs over all vector instructions,
+for the gzip pair (whose main loop was rescheduled for three-operand instructions) over those that carry an immediate: byte-shift counts, PCLMULQDQ selectors - and so is the
+multiset of constants of the general-purpose instructions in a spelling-independent form (pointer / length steps, length thresholds; see skeleton()).  Register allocation,
+instruction order and the choice between add/lea, cmp 0/test, mov 0/xor are not compared.  A twin that deviates is reported at the first difference.  Sibling agreement, not a proof of the CRC."""
 import re, difflib
 from common import AnalysisBroken
 import asmdb
@@ -12,24 +13,62 @@ IMM_ONLY = [('crc32_gzip_refl_by8', 'crc32_gzip_refl_by8_02')]
 NORM = {'movdqa': 'mov', 'movdqu': 'mov', 'xorps': 'pxor', 'xorpd': 'pxor'}
 
 
+_IMM = re.compile(r'^(0x[0-9a-f]+|\d+)$')
+_VEC = re.compile(r'^(v?p[a-z]|v?mov(dq|q|d|ap|up|hp|lp)|v?xorp|v?andp|v?orp|v?shufp|v?blend|v?insert|v?extract|vbroadcast|vperm|vzero)')
+JT = {'jl': 0, 'jge': 0, 'jnl': 0, 'jb': 0, 'jae': 0, 'jnb': 0, 'jc': 0, 'jnc': 0, 'jle': 1, 'jg': 1, 'jbe': 1, 'ja': 1, 'jna': 1, 'jng': 1}
+
+
 def skeleton(u, f, imm_only):
+    """the entries that are compared.  Vector instructions: (mnemonic without v, immediates) - all of them, or those with an immediate for the rescheduled pair.  General-purpose
+    instructions only through the constants they carry, in a form that does not depend on how the constant is spelt: `add r,K`, `sub r,-K`, `lea r,[r+K]`, `inc r` are ('step', K);
+    `cmp r,K` + jl/jge/jb/jae is the threshold ('thr', K), with jle/jg/jbe/ja the threshold K+1, with je/jne ('eq', K) - `cmp r,0`+je is `test r,r`+jz and is not an entry;
+    `mov r,0` is `xor r,r` and is not an entry; any other immediate is (mnemonic, immediates)."""
     out = []
-    for a in f.addrs:
+    addrs = list(f.addrs)
+    for n, a in enumerate(addrs):
         i = u.insns[a]
         mn = i.mn
         if mn.startswith(('nop', 'prefetch')) or mn == 'endbr64':
             continue
         m = mn[1:] if mn.startswith('v') and mn != 'vzeroupper' else mn
         m = NORM.get(m, m)
-        imms = tuple(int(o, 0) for o in i.ops if re.match(r'^(0x[0-9a-f]+|\d+)$', o))
-        if imms or not imm_only:
+        imms = tuple(int(o, 0) for o in i.ops if _IMM.match(o))
+        if _VEC.match(mn):
+            if imms or not imm_only:
+                out.append(((m, imms), i))
+            continue
+        if mn in ('add', 'sub') and len(imms) == 1:
+            k = imms[0] if imms[0] < (1 << 31) else imms[0] - (1 << 64 if imms[0] >= (1 << 32) else 1 << 32)
+            out.append((('step', k if mn == 'add' else -k), i))
+        elif mn in ('inc', 'dec'):
+            out.append((('step', 1 if mn == 'inc' else -1), i))
+        elif mn == 'lea' and len(i.ops) == 2:
+            mm = re.match(r'^\[(\w+)([+-])(0x[0-9a-f]+|\d+)\]$', i.ops[1])
+            if mm and mm.group(1) == i.ops[0]:
+                out.append((('step', int(mm.group(3), 0) * (1 if mm.group(2) == '+' else -1)), i))
+            elif re.search(r'[+-](0x[0-9a-f]+|\d+)\]$', i.ops[1]):
+                mm = re.search(r'([+-])(0x[0-9a-f]+|\d+)\]$', i.ops[1])
+                out.append((('lea', int(mm.group(2), 0) * (1 if mm.group(1) == '+' else -1)), i))
+        elif mn == 'cmp' and len(imms) == 1:
+            j = next((u.insns[b] for b in addrs[n + 1:n + 4] if u.insns[b].mn.startswith('j') and u.insns[b].mn != 'jmp'), None)
+            if j is not None and j.mn in JT:
+                out.append((('thr', imms[0] + JT[j.mn]), i))
+            elif j is not None and j.mn in ('je', 'jz', 'jne', 'jnz'):
+                if imms[0] != 0:
+                    out.append((('eq', imms[0]), i))
+            else:
+                out.append((('cmp', imms), i))
+        elif mn == 'mov' and imms == (0,):
+            continue
+        elif imms:
             out.append(((m, imms), i))
     return out
 
 
 def check(rep, floor=4):
-    R = rep.rule('R-CRC-TWINS', 'the SSE and AVX versions of the same folding CRC kernel (crc16_t10dif_01/_02, crc32_ieee_01/_02, crc16_t10dif_copy_by4/_by4_02: every instruction; crc32_gzip_refl_by8/_by8_02: every '
-                 'instruction with an immediate) agree in the multiset of (mnemonic without the v prefix, immediate operands): byte-shift counts, carry-less-multiply selectors, length comparisons and pointer steps '
+    R = rep.rule('R-CRC-TWINS', 'the SSE and AVX versions of the same folding CRC kernel (crc16_t10dif_01/_02, crc32_ieee_01/_02, crc16_t10dif_copy_by4/_by4_02: every vector instruction; crc32_gzip_refl_by8/_by8_02: every '
+                 'vector instruction with an immediate) agree in the multiset of (vector mnemonic without the v prefix, immediate operands) and in the multiset of general-purpose constants in spelling-independent form '
+                 '(step K for add/sub/lea/inc/dec, threshold K for cmp+jcc): byte-shift counts, carry-less-multiply selectors, length thresholds and pointer steps '
                  'of the variant the build host never runs are those of its twin', floor=floor, unit='twin pairs')
     units = asmdb.units('default')
     F = {}
